@@ -90,6 +90,49 @@ def r_pair(ctx, P):
     ctx.floor(P + ':S09-2:floor', 'creation sites of LineWriter / Base64Encoder outside their own constructors', n, 4)
 
 
+def wrapper_finishers(ctx, P):
+    """The explicit finishers themselves reach the final write of the wrapped encoder and hand its error to the caller
+    (otherwise the last partial quantum / line is written from a Drop, which swallows I/O errors)."""
+    b = ctx.body('armor::writer::Base64Encoder::<W>::finish')
+    if b is not None:
+        key = P + ':S09-2:wrapper:Base64Encoder::finish'
+        desc = 'Base64Encoder::finish returns the result of base64 EncoderWriter::finish on every path (the final quantum is not left to Drop)'
+        fin = call_blocks(b, r'base64::write::EncoderWriter::<.*>::finish$')
+        rets = b.returns()
+        ok, wit = must_pass(b, rets, fin)
+        flows = has_origin(b.operand_origins({'l': 0, 'pr': [], 'mv': 0}), r'call:base64::write::EncoderWriter::<.*>::finish$')
+        if fin and ok and flows:
+            ctx.ok(key, 'R-pair', desc, function=b.path, sites=[site(b, i) for i in fin])
+        else:
+            ctx.violation(key, 'R-pair', desc, function=b.path, witness=fmt_path(b, wit) if wit else None,
+                          missing='no call to EncoderWriter::finish whose result is returned' if not fin or not flows else 'a return avoids EncoderWriter::finish')
+    b = ctx.body("line_writer::LineWriter::<'a, W, N>::finish")
+    if b is not None:
+        key = P + ':S09-2:wrapper:LineWriter::finish'
+        desc = 'LineWriter::finish clears the pending partial line only after two propagated write_all calls (pending bytes + line break)'
+        clears = [i for i, k, s_ in b.stmts(lambda s: s['d']['pr'] and s['d']['pr'][-1].endswith('.extra_len') and s['r']['k'] == 'use'
+                                            and 'k' in s['r']['o'][0] and s['r']['o'][0]['k'].get('v') == 0)]
+        ws = [g for g, _ in guard_switches(b, clears, [r'call:std::io::Write::write_all$'])] if clears else []
+        # two distinct guards in sequence: removing either one must leave the other on every path
+        ok = bool(clears) and len(ws) >= 2
+        wit = None
+        if ok:
+            for w in ws:
+                ok1, wit1 = must_pass(b, clears, [w])
+                if not ok1:
+                    ok, wit = False, wit1
+        dones = [i for i, k, s_ in b.stmts(lambda s: s['d']['pr'] and s['d']['pr'][-1].endswith('.finished') and s['r']['k'] == 'use'
+                                           and 'k' in s['r']['o'][0] and s['r']['o'][0]['k'].get('v') in (1, True))]
+        sw = [i for i, t in b.switches() if has_origin(b.switch_origins(i), r'field:.*\.extra_len$')]
+        ok2, wit2 = must_pass(b, dones, sw) if dones else (False, None)
+        if ok and ok2 and sw:
+            ctx.ok(key, 'R-pair', desc, function=b.path, guards=[site(b, g) for g in ws])
+        else:
+            ctx.violation(key, 'R-pair', desc, function=b.path, witness=fmt_path(b, wit or wit2) if (wit or wit2) else None,
+                          missing='extra_len reset sites=%d, propagated write_all guards=%d, finished stores=%d, extra_len tests=%d' % (len(clears), len(ws), len(dones), len(sw)))
+    ctx.floor(P + ':S09-2:wrapper:floor', 'explicit finishers analysed', sum(1 for x in ('armor::writer::Base64Encoder::<W>::finish', "line_writer::LineWriter::<'a, W, N>::finish") if ctx.f.body(x) is not None), 2)
+
+
 ACC = r'Hasher::write$|Digest::update$|DynDigest::update$|Update::update$'
 
 
